@@ -76,6 +76,8 @@ type Case struct {
 	TailStart int    `json:"tail_start,omitempty"`
 	// protocol-respecting histories end with a fair drain tail starting here (0 = none)
 	DrainTail int `json:"drain_tail,omitempty"`
+	// one half of a two-engine history (mode pair)
+	Pair bool `json:"pair,omitempty"`
 	Events  []Event  `json:"events"`
 	Coq     string   `json:"coq"`
 }
@@ -1235,6 +1237,12 @@ func main() {
 		result = cases
 	case "route":
 		result = routeCases()
+	case "pair":
+		var cases []PairCase
+		for i := 0; i < *n; i++ {
+			cases = append(cases, generatePair(rng.Fork()))
+		}
+		result = cases
 	default:
 		panic("bad mode")
 	}
